@@ -29,6 +29,7 @@ class Cfg:
         self.ignore = 0.1
         self.ws_variants = 0.15  # leave_whitespace / set_whitespace_chars
         self.names = 0.0
+        self.set_name = 0.1  # custom names (error-message rewriting in ParseElementEnhance / MatchFirst / Or)
         self.lr = False
         self.leaf_kinds = None
         self.comp_kinds = None
@@ -267,7 +268,7 @@ class ProgGen:
         r, c = self.rng, self.cfg
         I = self.info
         if r.random() < c.actions:
-            tags = [["none"], ["const", "K"], ["drop"], ["rev"], ["dup"], ["failP"]]
+            tags = [["none"], ["const", "K"], ["drop"], ["rev"], ["dup"], ["app", "Z"], ["app", "Z"], ["failP"]]
             if c.fatal_actions:
                 tags.append(["failF"])
             if r.random() < 0.6:
@@ -276,6 +277,8 @@ class ProgGen:
                 self.add(["_", "condition", v, r.random() < 0.5, {"fatal": c.fatal_actions and r.random() < 0.3}], None)
             if r.random() < 0.15:
                 self.add(["_", "call_during_try", v], None)
+        if r.random() < c.set_name:
+            self.add(["_", "set_name", v, "N" + v], None)
         if r.random() < c.ws_variants:
             w = self.fresh()
             if r.random() < 0.6:
